@@ -526,7 +526,7 @@ class Analysis:
         return s.split(": ")[0] if ": " in s else s
 
 
-def forced_analysis(A, body, overrides, cfgd=None, args=None, state=None):
+def forced_analysis(A, body, overrides, cfgd=None, args=None, state=None, prepare=None):
     """Analyse `body` stand-alone with some callee models replaced (the A1 equivalent of 'assume this call
     returns X').  overrides: {callee def-path or generic path: model function}.  Returns (Interp, frame, exit state, collect)."""
     from interp import Interp, Config
@@ -538,5 +538,7 @@ def forced_analysis(A, body, overrides, cfgd=None, args=None, state=None):
     I.models = dict(I.models)
     for k, f in overrides.items():
         I.models[k] = f
+    if prepare is not None:
+        prepare(I)
     fr, out, col = I.analyze(body, args=args, state=state)
     return I, fr, out, col
